@@ -24,7 +24,7 @@ def main():
     checks = sys.argv[5:] or [pid]
     head = subprocess.check_output(["git", "-C", "/repo", "rev-parse", "HEAD"], text=True).strip()
     sh(["git", "checkout", "-q", "--detach", head], wt)
-    sh("git checkout -q -- . && git clean -fdq -e TASK.md -e OUT", wt)
+    sh("git checkout -q -- . && git clean -fdq -e TASK.md -e TASK2.md -e OUT", wt)
     demo = open(os.path.join(d, "demo_test.go")).read()
     pkg = re.search(r"(?m)^package\s+(\w+)", demo).group(1)
     pkgdir = "." if pkg in ("gogu", "gogu_test") else pkg.replace("_test", "")
@@ -76,7 +76,7 @@ def main():
             meta["checks"][c] = {"exit": rc, "caught": rc == 1 and bool(viol), "violation_line": viol[0] if viol else "",
                                  "detail": detail, "wall_s": round(time.time() - t0, 1)}
     finally:
-        sh("git checkout -q -- . && git clean -fdq -e TASK.md -e OUT", wt)
+        sh("git checkout -q -- . && git clean -fdq -e TASK.md -e TASK2.md -e OUT", wt)
         if os.path.isdir(out_aside):
             shutil.move(out_aside, os.path.join(wt, "OUT"))
             d = d.replace(out_aside, os.path.join(wt, "OUT"))
